@@ -240,7 +240,6 @@ def _mesh_worker(spec, obs):
 
     # ---- fields and collections -------------------------------------------------------------
     if spec.get("fields"):
-        dim = grid.dim
         fobs = {}
         for name in spec["fields"]:
             if name == "scalar":
